@@ -321,7 +321,7 @@ func evalC09(op string, args []string) string {
 func genC09(g *Gen, tier string, emit func(op string, args ...string)) {
 	types := []int{-1, 1, 1, 2, 255, 256}
 	wideTypes := []int{257, 65536, 65537, 1 << 32, 1<<32 + 1, -65535, -(1 << 32) + 2, -9223372036854775808}
-	vals := []string{"-", "61", "6262"}
+	vals := []string{"-", "61", "6262", "~"}
 	mkop := func(kind, t, v int) string {
 		k := itoa(types[t])
 		switch kind {
